@@ -7,6 +7,18 @@ COMMON_NOTE = ("Trusted: Lean kernel (axioms audited per theorem: propext, Class
                "(tied to the code by differential correspondence on this run's cases and by constants regenerated from the source), "
                "the Lean compiler for the driver, the harness. ")
 CLAIMS = {
+    "C04": {
+        "text": "Theorem client_roundtrip: for every response with well-formed headers and a correctly declared or undeclared length, every request "
+                "context (version, HEAD, TE), every splitting of the body reader into pieces and every continuation of the stream, an independent "
+                "RFC 7230 section 3.3.3 client parser recovers the status and exactly the body from the model's raw_print output, stops exactly at "
+                "the message end and never relies on connection close; no_body_bytes for HEAD/1xx/204/304; pieces_irrelevant + dechunk_enchunk for "
+                "the chunk encoder (unbounded body sizes). The model's raw_print is compared byte-for-byte with the real Response::raw_print on a "
+                "boundary product, and the client parser is run on the implementation's own output.",
+        "design_ref": "6 (C04), 5 (M2)",
+        "note": COMMON_NOTE + "chunked_transfer::Encoder and io::copy are re-modelled (Enc.write) and checked only by correspondence; statuses outside 100..999 "
+                "are covered by the lenient status parser only.",
+        "technique": "Lean 4 proof (encoder invariant, decode-of-print round trip by induction) + byte-exact differential correspondence of raw_print",
+    },
     "C05": {
         "text": "Theorems choose_eq_spec / never_chunked_for_old_or_nobody / framing_headers / default_threshold: the model of "
                 "choose_transfer_encoding + raw_print's framing headers equals a declarative choice function written from the property text, "
